@@ -846,6 +846,72 @@ func ruleCapKept(c *Ctx, rule string) {
 	if n == 0 {
 		c.und(rule, "capkept", token.NoPos, "no re-slicing of m.chunk found")
 	}
+	// and every buffer that enters circulation is made with capacity chunkSize
+	for _, fn := range srcFuncs(sp) {
+		for _, b := range fn.Blocks {
+			for _, ins := range b.Instrs {
+				st, ok := isChunkStore(ins)
+				if !ok {
+					continue
+				}
+				key := numberedKey(keys, funcName(fn)+"/chunk-store-has-capacity-chunkSize")
+				isSize := func(v ssa.Value) bool {
+					if loadOfField(v, morassPkg, "Morass", "chunkSize") {
+						return true
+					}
+					prm, ok := v.(*ssa.Parameter)
+					return ok && prm.Name() == "chunkSize"
+				}
+				var judge func(v ssa.Value, d int) string
+				judge = func(v ssa.Value, d int) string {
+					if d > 6 {
+						return "a value this rule cannot trace"
+					}
+					switch x := v.(type) {
+					case *ssa.Const:
+						if x.IsNil() {
+							return ""
+						}
+					case *ssa.MakeSlice:
+						if isSize(x.Cap) {
+							return ""
+						}
+						return "a slice made with a capacity other than chunkSize"
+					case *ssa.ChangeType:
+						return judge(x.X, d+1)
+					case *ssa.Phi:
+						for _, e := range x.Edges {
+							if w := judge(e, d+1); w != "" {
+								return w
+							}
+						}
+						return ""
+					case *ssa.Slice:
+						if fromChunkField(x.X) {
+							return "" // judged by the re-slicing clause
+						}
+						if al, ok := x.X.(*ssa.Alloc); ok {
+							_ = al
+							return "an empty or literal slice (sorter{}), whose capacity is whatever append chooses later"
+						}
+					case *ssa.Call:
+						if cl := builtinCall(x, "append"); cl != nil && fromChunkField(cl.Call.Args[0]) {
+							return ""
+						}
+					}
+					if fromChunkField(v) || valueFromPool(v, 0) {
+						return ""
+					}
+					return "a value that is neither made with capacity chunkSize, nor taken from the pool, nor a slice of the buffer itself"
+				}
+				if w := judge(st.Val, 0); w != "" {
+					c.bad(rule, key, st.Pos(), "m.chunk is assigned "+w+": the spill test len == cap and the in-memory test pos < cap rely on every buffer in circulation having capacity chunkSize; with another capacity a cycle that has spilled is taken for an in-memory one and its run is dropped")
+				} else {
+					c.ok(rule, key, st.Pos(), "the buffer assigned has capacity chunkSize (made so, taken from the pool, or the buffer itself)")
+				}
+			}
+		}
+	}
 }
 
 // ---- closeowner (C19): only the sender closes the queue ----
@@ -1304,4 +1370,275 @@ func ruleTraceLayer(c *Ctx, rule string, fns []*ssa.Function) {
 			c.ok(rule, key, fn.Pos(), "every comparison with a predecessor formula is made where the current layer is known")
 		}
 	}
+}
+
+// ---- recorderr (C03): a reader never hands back neither a record nor an error ----
+
+// ruleRecOrErr: every function of the reader packages with results
+// (record, error) — Read itself and the helpers whose results it passes on —
+// returns a non-nil error wherever it returns a nil record: no return
+// statement has both results nil, be it as two nil constants or as a nil
+// record with an error value that the paths into the return have found nil
+// (or have just reset to nil). A (nil, nil) answer is neither a record nor an
+// error; callers that loop until an error spin or stop silently.
+func ruleRecOrErr(c *Ctx, rule string, shorts ...string) {
+	n := 0
+	keys := map[string]int{}
+	for _, short := range shorts {
+		sp := c.SPkgs[c.pkg(short).PkgPath]
+		for _, fn := range srcFuncs(sp) {
+			res := fn.Signature.Results()
+			if res.Len() != 2 || !isErrorType(res.At(1).Type()) {
+				continue
+			}
+			switch res.At(0).Type().Underlying().(type) {
+			case *types.Interface, *types.Pointer:
+			default:
+				continue
+			}
+			// only the reading side: Read methods and what they call
+			if fn.Name() != "Read" && !calledFromRead(fn, sp) {
+				continue
+			}
+			for _, r := range returnsOf(fn) {
+				rs := effectiveResults(r)
+				if len(rs) != 2 || !isNilConst(rs[0]) {
+					continue
+				}
+				n++
+				c.Funcs[funcName(fn)] = true
+				key := numberedKey(keys, funcName(fn)+"/nil-record-comes-with-an-error")
+				if isNilConst(rs[1]) || knownNilAt(r.Block(), rs[1]) {
+					c.bad(rule, key, r.Pos(), "this return hands back a nil record together with an error that is nil here: the caller gets neither a record nor an error, so a loop that reads until an error never sees the end of a truncated input (or stops silently)")
+				} else {
+					c.ok(rule, key, r.Pos(), "the nil record is returned with an error value that is not known to be nil")
+				}
+			}
+		}
+	}
+	if n == 0 {
+		c.und(rule, "recorderr", token.NoPos, "no return of a nil record found in the readers")
+	}
+}
+
+// calledFromRead: fn is reached by static calls from a method named Read of its package.
+func calledFromRead(fn *ssa.Function, sp *ssa.Package) bool {
+	for _, g := range srcFuncs(sp) {
+		if g.Name() != "Read" {
+			continue
+		}
+		for _, h := range pkgReach(g) {
+			if h == fn {
+				return true
+			}
+		}
+	}
+	return false
+}
+
+// ---- coordspace (C06): positions and subscripts are not mixed ----
+
+// ruleCoordSpace: Truncate, Stitch and Compose work in two coordinate systems:
+// positions (what Start() and End() of the source and of the features return,
+// and the start/end arguments) and subscripts of the letter slice (0..Len()).
+// Subtracting the source's Start() from a position gives a subscript. Every
+// integer expression is given a degree in "origin": 1 for a position, 0 for a
+// length or subscript, sums and differences add and subtract degrees. The two
+// arguments of a min, max or comparison have the same degree, and the bounds
+// handed to Slice and Make have degree 0. min(f.e, pLen) — a position against a
+// length — clips in the wrong system: with a source that does not start at 0
+// the wrong letters (or none, or a panic) come out.
+func ruleCoordSpace(c *Ctx, rule string) {
+	for _, name := range []string{"Truncate", "Stitch", "Compose"} {
+		fn := c.fn("seq/sequtils", name)
+		c.Funcs[funcName(fn)] = true
+		type deg struct {
+			known bool
+			wild  bool // a constant: fits anywhere
+			d     int
+		}
+		memo := map[ssa.Value]deg{}
+		busy := map[ssa.Value]bool{}
+		var degree func(v ssa.Value) deg
+		n := 0
+		keys := map[string]int{}
+		var bads []string
+		report := func(kind string, pos token.Pos, ok bool, msg string) {
+			n++
+			key := numberedKey(keys, funcName(fn)+"/"+kind)
+			if ok {
+				c.ok(rule, key, pos, msg)
+			} else {
+				c.bad(rule, key, pos, msg)
+				bads = append(bads, key)
+			}
+		}
+		degree = func(v ssa.Value) deg {
+			if d, ok := memo[v]; ok {
+				return d
+			}
+			if busy[v] {
+				return deg{}
+			}
+			busy[v] = true
+			defer delete(busy, v)
+			var out deg
+			switch x := v.(type) {
+			case *ssa.Const:
+				out = deg{known: true, wild: true}
+			case *ssa.Parameter:
+				if isIntegral(x.Type()) && (x.Name() == "start" || x.Name() == "end") {
+					out = deg{known: true, d: 1}
+				}
+			case *ssa.Convert:
+				out = degree(x.X)
+			case *ssa.Phi:
+				first := true
+				for _, e := range x.Edges {
+					de := degree(e)
+					if !de.known {
+						out = deg{}
+						first = false
+						break
+					}
+					if de.wild {
+						continue
+					}
+					if first {
+						out, first = de, false
+					} else if out.d != de.d {
+						out = deg{}
+						break
+					}
+				}
+				if first {
+					out = deg{known: true, wild: true}
+				}
+			case *ssa.BinOp:
+				if x.Op == token.ADD || x.Op == token.SUB {
+					a, b := degree(x.X), degree(x.Y)
+					if a.known && b.known {
+						s := 1
+						if x.Op == token.SUB {
+							s = -1
+						}
+						out = deg{known: true, d: a.d + s*b.d, wild: a.wild && b.wild}
+					}
+				}
+			case *ssa.UnOp:
+				if x.Op == token.MUL {
+					if fa, ok := x.X.(*ssa.FieldAddr); ok {
+						// a field of a local record (the merged spans): what is stored into that field
+						nm := fieldName(fa)
+						first := true
+						for _, b := range fn.Blocks {
+							for _, ins := range b.Instrs {
+								st, ok := ins.(*ssa.Store)
+								if !ok {
+									continue
+								}
+								fa2, ok := st.Addr.(*ssa.FieldAddr)
+								if !ok || fieldName(fa2) != nm || !types.Identical(fa2.X.Type(), fa.X.Type()) {
+									continue
+								}
+								de := degree(st.Val)
+								if !de.known {
+									continue
+								}
+								if first || out.wild {
+									out, first = de, false
+								} else if !de.wild && de.d != out.d {
+									out = deg{}
+								}
+							}
+						}
+					}
+				}
+			case *ssa.Call:
+				nm := ""
+				if x.Call.IsInvoke() {
+					nm = x.Call.Method.Name()
+				} else if g := x.Call.StaticCallee(); g != nil {
+					nm = g.Name()
+				} else if b, ok := x.Call.Value.(*ssa.Builtin); ok {
+					nm = b.Name()
+				}
+				switch nm {
+				case "Start", "End":
+					out = deg{known: true, d: 1}
+				case "Len", "len", "cap":
+					out = deg{known: true, d: 0}
+				case "min", "max":
+					args := x.Call.Args
+					if len(args) == 2 {
+						a, b := degree(args[0]), degree(args[1])
+						switch {
+						case a.known && b.known && !a.wild && !b.wild:
+							if a.d == b.d {
+								out = a
+								report(nm, x.Pos(), true, "both arguments are in the same coordinate system")
+							} else {
+								report(nm, x.Pos(), false, fmt.Sprintf("%s compares a %s with a %s: the result clips in the wrong coordinate system, so for a source that does not start at position 0 the wrong letters are taken (or none, or the slice panics)", nm, degName(a.d), degName(b.d)))
+							}
+						case a.known && !a.wild:
+							out = a
+						case b.known && !b.wild:
+							out = b
+						case a.known && b.known:
+							out = deg{known: true, wild: true}
+						}
+					}
+				}
+			}
+			memo[v] = out
+			return out
+		}
+		// evaluate every integer value once so that each min/max is judged, then the sinks
+		for _, b := range fn.Blocks {
+			for _, ins := range b.Instrs {
+				if v, ok := ins.(ssa.Value); ok && isIntegral(v.Type()) {
+					degree(v)
+				}
+			}
+		}
+		for _, b := range fn.Blocks {
+			for _, ins := range b.Instrs {
+				call, ok := ins.(*ssa.Call)
+				if !ok || !call.Call.IsInvoke() {
+					continue
+				}
+				m := call.Call.Method.Name()
+				if m != "Slice" && m != "Make" {
+					continue
+				}
+				for _, a := range call.Call.Args {
+					if !isIntegral(a.Type()) {
+						continue
+					}
+					d := degree(a)
+					if !d.known || d.wild {
+						continue
+					}
+					if d.d == 0 {
+						report(m+"-bound", call.Pos(), true, "the bound is a subscript (a position minus the source's start, or a length)")
+					} else {
+						report(m+"-bound", call.Pos(), false, fmt.Sprintf("a bound handed to %s is a %s, not a subscript: the source's start has not been subtracted (or was subtracted twice), so for a source that does not start at position 0 the wrong letters are taken", m, degName(d.d)))
+					}
+				}
+			}
+		}
+		if n == 0 {
+			c.und(rule, funcName(fn)+"/coordinates", fn.Pos(), "no min, max, Slice or Make with classifiable arguments found")
+		}
+	}
+}
+
+func degName(d int) string {
+	switch d {
+	case 0:
+		return "length or subscript"
+	case 1:
+		return "position"
+	}
+	return fmt.Sprintf("quantity of origin degree %d", d)
 }
